@@ -400,8 +400,10 @@ def distLoop (collect : Expr → RwR) : Nat → Expr → RwR
     | [] => flatProd cs
     | .nary .sum scs :: rest => do
         let rest' ← (if rest.isEmpty then pure one else distLoop collect fuel (.nary .prod rest))
-        let lead ← flatProd leading
+        -- `flattened_product(leading) * dist(sumchild*rest)` is evaluated once per summand, left
+        -- operand first
         let terms ← scs.mapM fun sc => do
+          let lead ← flatProd leading
           let p ← pyMul sc rest'
           let d ← distLoop collect fuel p
           pyMul lead d
